@@ -36,7 +36,10 @@ fn to_units(t: Time, start_ns: i128) -> i128 {
 }
 
 fn check(what: &str, got: i128, want: i128, elapsed_ns: i128) -> Option<String> {
-    let tol = 2_000_000_000i128 + (elapsed_ns.abs() * 1_000_000_000 >> 30) ; // 2 ns + 2^-30 relative
+    // 2 ns + 2^-40 of the elapsed time. What is unavoidable is far less (the 2^-32 ns resolution of the fixed point, the ppm value
+    // rounded to 2^-32 when it enters it: below 0.01 ns over 10^4 s); a rate taken through a 32 bit fraction of ppm/10^6 is off by
+    // up to 1.2e-10 of the elapsed time (hundreds of ns over the 10^4 s of the property) and is not "(1 + ppm/10^6) times the rate"
+    let tol = 2_000_000_000i128 + (elapsed_ns.abs() * 1_000_000_000 >> 40);
     if (got - want).abs() > tol { Some(format!("{}: reading {} ns, exact {} ns (difference {} ns)", what, got as f64 / 1e9, want as f64 / 1e9, (got - want) as f64 / 1e9)) } else { None }
 }
 
